@@ -78,6 +78,11 @@ type VerifPoolTracker struct {
 	violations []string
 	maxEvents  int
 	dropped    int
+
+	// OnViolation, if set before the tracker is installed, is called (with the tracker's lock
+	// held) for every violation seen directly; a buffer owned twice usually crashes the router
+	// soon afterwards.
+	OnViolation func(string)
 }
 
 var verifPoolTracker atomic.Pointer[VerifPoolTracker]
@@ -138,6 +143,13 @@ func verifPoolWho() (uint64, int) {
 	return id, stage
 }
 
+func (t *VerifPoolTracker) violate(msg string) {
+	t.violations = append(t.violations, msg)
+	if t.OnViolation != nil {
+		t.OnViolation(msg)
+	}
+}
+
 // thread returns the index of the calling goroutine (mu held).
 func (t *VerifPoolTracker) thread(id uint64, stage int) int {
 	now := time.Now()
@@ -184,14 +196,12 @@ func (t *VerifPoolTracker) onPut(pkt *Packet) {
 	g := t.thread(id, stage)
 	tok, ok := t.toks[pkt]
 	if !ok {
-		t.violations = append(t.violations,
-			fmt.Sprintf("Put of a packet that is not a pool buffer by stage %d", stage))
+		t.violate(fmt.Sprintf("Put of a packet that is not a pool buffer by stage %d", stage))
 		t.log(VerifPoolPut, -1, g)
 		return
 	}
 	if t.inPool[tok] {
-		t.violations = append(t.violations,
-			fmt.Sprintf("double Put: buffer %d returned by stage %d while in the pool", tok, stage))
+		t.violate(fmt.Sprintf("double Put: buffer %d returned by stage %d while in the pool", tok, stage))
 	}
 	t.inPool[tok] = true
 	t.holder[tok] = -1
@@ -205,13 +215,12 @@ func (t *VerifPoolTracker) onGet(pkt *Packet) {
 	g := t.thread(id, stage)
 	tok, ok := t.toks[pkt]
 	if !ok {
-		t.violations = append(t.violations,
-			fmt.Sprintf("Get returned a packet that is not a pool buffer to stage %d", stage))
+		t.violate(fmt.Sprintf("Get returned a packet that is not a pool buffer to stage %d", stage))
 		t.log(VerifPoolGet, -1, g)
 		return
 	}
 	if !t.inPool[tok] {
-		t.violations = append(t.violations, fmt.Sprintf(
+		t.violate(fmt.Sprintf(
 			"Get of a held buffer: buffer %d handed to stage %d while owned by thread %d",
 			tok, stage, t.holder[tok]))
 	}
@@ -236,7 +245,7 @@ func (t *VerifPoolTracker) Use(bufs [][]byte) {
 			}
 		}
 		if tok >= 0 && t.inPool[tok] {
-			t.violations = append(t.violations, fmt.Sprintf(
+			t.violate(fmt.Sprintf(
 				"use of a pooled buffer: buffer %d presented to a socket by stage %d", tok, stage))
 		}
 		t.log(VerifPoolUse, tok, g)
